@@ -735,3 +735,15 @@ func IsMapUpdateOn(tf string) func(ssa.Instruction) bool {
 		return ok && IsFieldLoad(mu.Map, tf)
 	}
 }
+
+// Or2 combines value predicates.
+func Or2(fs ...func(ssa.Value) bool) func(ssa.Value) bool {
+	return func(v ssa.Value) bool {
+		for _, f := range fs {
+			if f(v) {
+				return true
+			}
+		}
+		return false
+	}
+}
